@@ -1652,4 +1652,200 @@ theorem elemCore_enum_sound (env : Env F) (ty : ElemTy) (het : EnumTy ty) (l : L
   refine ⟨hnull, name, i, sp3, hsplit, hn1, hn2, hfind, hset, hb3, ?_, hat⟩
   rw [hv, hval]
 
+/-! ### entity references with `skipws` switched off (a STRING was read from the stream before): `# 5` is no longer accepted -/
+
+theorem extractInt32_nosk (l r : List Byte) :
+    IStream.extractInt32 (G l r false) =
+      (some (if (scanInt longMin longMax l r).1.value < intMin then intMin
+             else if (scanInt longMin longMax l r).1.value > intMax then intMax
+             else (scanInt longMin longMax l r).1.value),
+       { left := (scanInt longMin longMax l r).2.1, right := (scanInt longMin longMax l r).2.2,
+         eof := (scanInt longMin longMax l r).2.2.isEmpty,
+         fail := (if (scanInt longMin longMax l r).1.value < intMin then true
+                  else if (scanInt longMin longMax l r).1.value > intMax then true
+                  else (scanInt longMin longMax l r).1.fail),
+         bad := false, skipws := false }) := by
+  simp only [IStream.extractInt32, IStream.sentry, IStream.good, Bool.not_false, Bool.and_self, Bool.and_false,
+    Bool.false_eq_true, if_false, if_true]
+  split <;> (try split) <;> rfl
+
+/-- `ReadEntityRef` with `skipws` off: the same statement as `readEntityRef_sound`, no blanks between `#` and the id -/
+theorem readEntityRef_sound_nosk (cfg : LexCfg) (lookup : Int → RefLookup) (l : List Byte) (c : Byte) (t : List Byte)
+    (hc : isSpace c = false) (h44 : c ≠ 44) (h41 : c ≠ 41)
+    (hgar : cfg.refReportsNonRef = false → delimAt cfg attrDelims c = false ∧ c ≠ 47)
+    (o : Option Int) (s' : IStream) (e : Sev)
+    (h : readEntityRef cfg lookup (some attrDelims) (G l (c :: t) false) .null = (o, s', e)) (hne : NoErr e) :
+    ∃ tok sp2, c :: t = 35 :: (tok ++ sp2 ++ s'.right) ∧ Between cfg sp2 ∧
+      isInteger tok = true ∧ intMin ≤ denoteInteger tok ∧ denoteInteger tok ≤ intMax ∧
+      lookup (denoteInteger tok) = .found ∧ o = some (denoteInteger tok) ∧ AtDelimOrEnd cfg s'.right := by
+  simp only [readEntityRef, ws_good0 _ _ _ _ hc, getChar_G _ _ _ _ hc] at h
+  simp only [Option.getD_some, Option.isSome_some, Bool.and_true] at h
+  by_cases h35 : c = 35
+  · subst h35
+    simp only [beq_self_eq_true, Bool.true_or, if_true] at h
+    have h64 : ((35 : Byte) == 64) = false := by decide
+    simp only [h64, Bool.false_eq_true, if_false] at h
+    simp only [refTail, extractInt32_nosk, IStream.failed, Bool.or_false] at h
+    obtain ⟨tok, rest, hr, hrest, hs2, hval, _⟩ := scanInt_split longMin longMax (by decide) (by decide) (35 :: l) t
+    generalize hsc : scanInt longMin longMax (35 :: l) t = sc at h hs2 hval
+    obtain ⟨res, l', r'⟩ := sc
+    simp only [Prod.mk.injEq] at hs2
+    obtain ⟨rfl, rfl⟩ := hs2
+    simp only at h hval
+    by_cases hlo : res.value < intMin
+    · exfalso
+      simp only [hlo, if_true, Prod.mk.injEq] at h
+      obtain ⟨_, _, he⟩ := h
+      subst he
+      rcases cri_mono cfg _ (Sev.null.greater Sev.warning) with hm | hm
+      · rw [hm] at hne; exact greater_warning_err _ hne
+      · exact hm hne
+    · by_cases hhi : res.value > intMax
+      · exfalso
+        simp only [hlo, hhi, if_true, if_false, Prod.mk.injEq] at h
+        obtain ⟨_, _, he⟩ := h
+        subst he
+        rcases cri_mono cfg _ (Sev.null.greater Sev.warning) with hm | hm
+        · rw [hm] at hne; exact greater_warning_err _ hne
+        · exact hm hne
+      · simp only [hlo, hhi, if_false] at h
+        cases hf : res.fail with
+        | true =>
+          exfalso
+          simp only [hf, if_true, Prod.mk.injEq] at h
+          obtain ⟨_, _, he⟩ := h
+          subst he
+          rcases cri_mono cfg _ (Sev.null.greater Sev.warning) with hm | hm
+          · rw [hm] at hne; exact greater_warning_err _ hne
+          · exact hm hne
+        | false =>
+          simp only [hf, Bool.false_eq_true, if_false, Option.getD_some] at h
+          obtain ⟨htok, hv, _, _⟩ := hval hf
+          cases hlk : lookup res.value with
+          | found =>
+            simp only [hlk, Prod.mk.injEq] at h
+            obtain ⟨ho, hs, he⟩ := h
+            subst ho hs he
+            have hch := (cri_char cfg { left := tok.reverse ++ 35 :: l, right := r', eof := r'.isEmpty, fail := false, bad := false, skipws := false } Sev.null rfl).2 hne
+            generalize checkRemainingInput cfg (some attrDelims) { left := tok.reverse ++ 35 :: l, right := r', eof := r'.isEmpty, fail := false, bad := false, skipws := false } Sev.null = X at hne hch ⊢
+            rw [hv] at hlk hlo hhi
+            rcases hch with ⟨heof, hsame⟩ | ⟨heof, sp2, hsp2, hrr, _, hat⟩
+            · simp only at heof
+              have hre : r' = [] := by simpa using heof
+              subst hre
+              refine ⟨tok, [], ?_, Between.nil cfg, htok, by omega, by omega, hlk, by rw [hv], ?_⟩
+              · rw [hsame]; simp [hr]
+              · rw [hsame]; exact Or.inl rfl
+            · simp only at hrr
+              refine ⟨tok, sp2, ?_, hsp2, htok, by omega, by omega, hlk, by rw [hv], hat⟩
+              rw [hr, hrr]; simp
+          | wrongType =>
+            exfalso
+            simp only [hlk, Prod.mk.injEq] at h
+            obtain ⟨_, _, he⟩ := h
+            subst he
+            exact greater_warning_err _ hne
+          | missing =>
+            exfalso
+            simp only [hlk, Prod.mk.injEq] at h
+            obtain ⟨_, _, he⟩ := h
+            subst he
+            exact greater_warning_err _ hne
+  · by_cases h64 : c = 64
+    · exfalso
+      subst h64
+      simp only [beq_self_eq_true, Bool.or_true, if_true] at h
+      have := refTail_mono cfg lookup (G (64 :: l) t false) (Sev.null.greater Sev.warning) (greater_warning_err _)
+      rw [h] at this
+      exact this hne
+    · exfalso
+      have hno : (c == 35 || c == 64) = false := by simp [h35, h64]
+      have hnd : refNotDelim (some attrDelims) c = true := by
+        simp [refNotDelim, isDelim, attrDelims, h44, h41]
+      simp only [hno, Bool.false_eq_true, if_false, putback_good, hnd, Bool.and_true, Prod.mk.injEq] at h
+      obtain ⟨_, _, he⟩ := h
+      subst he
+      cases hq : cfg.refReportsNonRef with
+      | true =>
+        simp only [hq] at hne
+        rcases cri_mono cfg _ _ with hm | hm
+        · rw [hm] at hne; exact warnIf_true_err Sev.null hne
+        · exact hm hne
+      | false => exact cri_garbage cfg _ c t false false _ hc (hgar hq).1 (hgar hq).2 hne
+
+/-- `ReadEntityRef`, either state of `skipws` -/
+theorem readEntityRef_sound_any (cfg : LexCfg) (lookup : Int → RefLookup) (l : List Byte) (c : Byte) (t : List Byte) (sk : Bool)
+    (hc : isSpace c = false) (h44 : c ≠ 44) (h41 : c ≠ 41)
+    (hgar : cfg.refReportsNonRef = false → delimAt cfg attrDelims c = false ∧ c ≠ 47)
+    (o : Option Int) (s' : IStream) (e : Sev)
+    (h : readEntityRef cfg lookup (some attrDelims) (G l (c :: t) sk) .null = (o, s', e)) (hne : NoErr e) :
+    ∃ spx tok sp2, c :: t = 35 :: (spx ++ tok ++ sp2 ++ s'.right) ∧ spx.all isSpace = true ∧ Between cfg sp2 ∧
+      isInteger tok = true ∧ intMin ≤ denoteInteger tok ∧ denoteInteger tok ≤ intMax ∧
+      lookup (denoteInteger tok) = .found ∧ o = some (denoteInteger tok) ∧ AtDelimOrEnd cfg s'.right := by
+  cases sk with
+  | true => exact readEntityRef_sound cfg lookup l c t hc h44 h41 hgar o s' e h hne
+  | false =>
+    obtain ⟨tok, sp2, h1, h2, h3, h4, h5, h6, h7, h8⟩ := readEntityRef_sound_nosk cfg lookup l c t hc h44 h41 hgar o s' e h hne
+    exact ⟨[], tok, sp2, by simpa using h1, by simp, h2, h3, h4, h5, h6, h7, h8⟩
+
+/-- entity references, either state of `skipws` -/
+theorem elemCore_ref_sound_any (env : Env F) (tg : String) (l : List Byte) (c : Byte) (t : List Byte) (sk : Bool) (hc : isSpace c = false)
+    (hd : delimAt env.lex attrDelims c = false) (h47 : c ≠ 47)
+    (e2 : Sev) (v : Elem F) (s2 : IStream)
+    (h : elemReadCore env (.entity tg) (G l (c :: t) sk) = .ok (e2, v, s2)) (hne : ¬ e2.toInt < Sev.incomplete.toInt) :
+    e2 = .null ∧ ∃ spx tok sp2 sp3, c :: t = 35 :: (spx ++ tok ++ sp2 ++ sp3 ++ s2.right) ∧ spx.all isSpace = true ∧
+      Between env.lex sp2 ∧ Between env.lex sp3 ∧ isInteger tok = true ∧ intMin ≤ denoteInteger tok ∧ denoteInteger tok ≤ intMax ∧
+      refLookup env.lookup tg (denoteInteger tok) = .found ∧ v = .atom (.ref (denoteInteger tok)) ∧
+      AtDelimOrEnd env.lex s2.right := by
+  obtain ⟨h44, h41⟩ := delimAt_not hd
+  unfold elemReadCore at h
+  simp only [scalarNodeRead_entity, bind, Except.bind, pure, Except.pure, Except.ok.injEq, Prod.mk.injEq] at h
+  obtain ⟨he2, hv, hs2⟩ := h
+  generalize hR : readEntityRef env.lex (refLookup env.lookup tg) (some attrDelims) (G l (c :: t) sk) .null = R at he2 hv hs2
+  obtain ⟨o, s1, e⟩ := R
+  simp only at he2 hv hs2
+  subst he2 hs2
+  obtain ⟨hkeep, hq⟩ := cri_kept env.lex s1 e hne
+  -- `ReadEntityRef` never answers INCOMPLETE: NULL or WARNING-or-worse
+  have hrange : e = .null ∨ e.toInt ≤ 0 := by
+    have hg : ∀ (x y : Sev), (x = .null ∨ x.toInt ≤ 0) → (y.toInt ≤ 0) → ((x.greater y) = .null ∨ (x.greater y).toInt ≤ 0) := by
+      intro x y _ hy; right; have := greater_toInt_le' x y; omega
+    have hwi : ∀ (x : Sev) (b : Bool), (x = .null ∨ x.toInt ≤ 0) → ((x.warnIf b) = .null ∨ (x.warnIf b).toInt ≤ 0) := by
+      intro x b hx
+      cases b with
+      | false => simpa [Sev.warnIf] using hx
+      | true => simpa [Sev.warnIf] using hg x Sev.warning hx (by decide)
+    have hcri : ∀ (s : IStream) (x : Sev), (x = .null ∨ x.toInt ≤ 0) →
+        ((checkRemainingInput env.lex (some attrDelims) s x).2 = .null ∨ (checkRemainingInput env.lex (some attrDelims) s x).2.toInt ≤ 0) := by
+      intro s x hx
+      rcases cri_sev env.lex (some attrDelims) s x with h' | h'
+      · rw [h']; exact hx
+      · exact Or.inr h'
+    have hw0 : (Sev.null.greater Sev.warning) = .null ∨ (Sev.null.greater Sev.warning).toInt ≤ 0 := by decide
+    simp only [readEntityRef] at hR
+    split at hR
+    · -- `#` / `@`
+      simp only [refTail] at hR
+      split at hR
+      · simp only [Prod.mk.injEq] at hR
+        rw [← hR.2.2]
+        exact hcri _ _ (hg _ _ (by split <;> first | exact hw0 | exact Or.inl rfl) (by decide))
+      · split at hR <;>
+        · simp only [Prod.mk.injEq] at hR
+          rw [← hR.2.2]
+          first
+            | exact hcri _ _ (by split <;> first | exact hw0 | exact Or.inl rfl)
+            | exact hg _ _ (hcri _ _ (by split <;> first | exact hw0 | exact Or.inl rfl)) (by decide)
+    · simp only [Prod.mk.injEq] at hR
+      rw [← hR.2.2]
+      exact hcri _ _ (hwi _ _ (Or.inl rfl))
+  have he : e = .null := sev_null_of_range hrange hq
+  subst he
+  obtain ⟨spx, tok, sp2, hsplit, hsx, hb2, htok, hlo, hhi, hfound, ho, hat⟩ :=
+    readEntityRef_sound_any env.lex (refLookup env.lookup tg) l c t sk hc h44 h41 (fun _ => ⟨hd, h47⟩) o s1 Sev.null hR (Or.inl rfl)
+  obtain ⟨_, sp3, hr3, hb3, hat3⟩ := second_cri env.lex s1 hne hat
+  subst ho
+  refine ⟨hkeep, spx, tok, sp2, sp3, ?_, hsx, hb2, hb3, htok, hlo, hhi, hfound, hv.symm, hat3⟩
+  rw [hsplit, hr3]; simp
+
 end StepModel.P21.AggrLemmas
